@@ -130,6 +130,23 @@ func c02apis() []c02api {
 			}
 			return std.Unmarshal(w, &v) == nil, nil
 		}},
+		// typed containers: their separators and white space are consumed by the generated
+		// (JIT) code itself, not by the native skipper
+		{name: "Unmarshal-map[string]int-default", wrap: ident,
+			stdAccept: func(w []byte) bool { var v map[string]int; return json.Unmarshal(w, &v) == nil },
+			accept:    func(w []byte) (bool, []byte) { var v map[string]int; return def.Unmarshal(w, &v) == nil, nil }},
+		{name: "Unmarshal-[]int-std", wrap: ident,
+			stdAccept: func(w []byte) bool { var v []int; return json.Unmarshal(w, &v) == nil },
+			accept:    func(w []byte) (bool, []byte) { var v []int; return std.Unmarshal(w, &v) == nil, nil }},
+		{name: "Unmarshal-struct-default", wrap: ident,
+			stdAccept: func(w []byte) bool { var v dAB; return json.Unmarshal(w, &v) == nil },
+			accept:    func(w []byte) (bool, []byte) { var v dAB; return def.Unmarshal(w, &v) == nil, nil }},
+		{name: "Unmarshal-map[string]RawMessage-std", wrap: ident,
+			stdAccept: func(w []byte) bool { var v map[string]json.RawMessage; return json.Unmarshal(w, &v) == nil },
+			accept:    func(w []byte) (bool, []byte) { var v map[string]json.RawMessage; return std.Unmarshal(w, &v) == nil, nil }},
+		{name: "Unmarshal-[][]interface-default", wrap: ident,
+			stdAccept: func(w []byte) bool { var v [][]interface{}; return json.Unmarshal(w, &v) == nil },
+			accept:    func(w []byte) (bool, []byte) { var v [][]interface{}; return def.Unmarshal(w, &v) == nil, nil }},
 		{name: "Unmarshal-node-default", wrap: ident, accept: func(w []byte) (bool, []byte) {
 			var n ast.Node
 			if err := def.Unmarshal(w, &n); err != nil {
